@@ -168,7 +168,9 @@ DispFails(G, S, ln) ==
   IN
   IF ~Known(S, e) THEN {<<"M", "unknown_event">>}
   ELSE
-  (IF S.ev[e].st # 0 THEN {<<"C02", "dispatched_twice">>}
+  (IF S.ev[e].st # 0
+   THEN {<<"C02", "dispatched_twice">>} \cup
+        (IF S.ev[e].mig # <<>> THEN {<<"C07", "duplicate_dispatch">>} ELSE {})   \* a queue migration left a copy behind
    ELSE IF e \notin b THEN
         (IF e \in Range(S.q[c]) THEN {<<"C02", "pass">>}            \* fired during this pass
          ELSE {<<"C07", "wrong_root">>})                            \* dispatched by a manager that does not own it
